@@ -1,0 +1,13 @@
+//go:build verif
+
+package file
+
+// VerifStepHook, when set, is called immediately before each file-system mutation of the file store with
+// the name of the step and the path it is about to act on (verification harness only).
+var VerifStepHook func(step, path string)
+
+func verifStep(step, path string) {
+	if VerifStepHook != nil {
+		VerifStepHook(step, path)
+	}
+}
